@@ -39,6 +39,7 @@ type fakeS3 struct {
 	t0      time.Time
 	script  []string // ok | fail, per request; default ok
 	latency time.Duration
+	lat2    time.Duration // every second upload takes this long instead (0 = all uploads alike)
 	ups     []upload
 	onReq   func(n int) // called before answering the n-th request (1-based)
 }
@@ -57,6 +58,9 @@ func (f *fakeS3) Do(req *http.Request) (*http.Response, error) {
 		f.script = f.script[1:]
 	}
 	lat := f.latency
+	if f.lat2 > 0 && n%2 == 0 {
+		lat = f.lat2
+	}
 	hook := f.onReq
 	f.ups = append(f.ups, upload{at: at, key: req.URL.Path, body: body, ok: outcome == "ok"})
 	f.mu.Unlock()
@@ -155,6 +159,10 @@ func traceBackup(t *testing.T, o opts) {
 			script = append(script, pick(r, []string{"ok", "ok", "ok", "fail", "fail", "stall"}))
 		}
 		latency := pick(r, []int64{0, 0, 250, 5003, 90011})
+		lat2 := int64(0)
+		if latency == 90011 && r.Intn(2) == 0 {
+			lat2 = 1009 // a slow upload followed by a quick one: the pause after it is a full period all the same
+		}
 		race := -1
 		if r.Intn(3) == 0 {
 			race = 1 + r.Intn(3)
@@ -193,7 +201,7 @@ func traceBackup(t *testing.T, o opts) {
 		for i, w := range writes {
 			wl[i] = fmt.Sprint(w)
 		}
-		head := fmt.Sprintf("backup\treopened=%s\twrites=%s\tscript=%s\tlatency=%d\trace=%d\tcancel=%d", b01(reopened), strings.Join(wl, ","), strings.Join(script, ","), latency, race, cancel)
+		head := fmt.Sprintf("backup\treopened=%s\twrites=%s\tscript=%s\tlatency=%d\tlat2=%d\trace=%d\tcancel=%d", b01(reopened), strings.Join(wl, ","), strings.Join(script, ","), latency, lat2, race, cancel)
 		go func() {
 			res := ""
 			synctest.Test(t, func(t *testing.T) {
@@ -201,7 +209,7 @@ func traceBackup(t *testing.T, o opts) {
 				if err != nil {
 					t.Fatal(err)
 				}
-				fs3 := &fakeS3{t0: time.Now(), script: append([]string(nil), script...), latency: time.Duration(latency) * time.Millisecond}
+				fs3 := &fakeS3{t0: time.Now(), script: append([]string(nil), script...), latency: time.Duration(latency) * time.Millisecond, lat2: time.Duration(lat2) * time.Millisecond}
 				client := s3.New(s3.Options{Region: "us-east-1", HTTPClient: fs3,
 					Credentials:  credentials.NewStaticCredentialsProvider("AK", "SK", ""),
 					BaseEndpoint: aws.String("http://s3.invalid"), UsePathStyle: true, RetryMaxAttempts: 1})
